@@ -3,7 +3,7 @@ import BU.Spec.Bip340
 import BU.Spec.Taproot
 import BU.Spec.CurveLaws
 import BU.Model.Taproot
-import BU.Properties.C20
+import BU.Proofs.SchnorrLemmas
 /-!
 # C07 — taproot Schnorr signatures verify for the committed output key or leaf key
 
@@ -11,7 +11,62 @@ M: `Model.signTaproot` (`_sign_taproot_input`), `Model.tweakPrivkey`, `Model.twe
 The group-theoretic content rests on the explicit hypothesis `CurveLaws`.
 -/
 namespace C07
-open Py Spec Model Secp
+open Py Spec Model Secp SchnorrLemmas
+set_option linter.unusedVariables false
+
+/-! ### helper lemmas -/
+
+theorem take32_append (a b : Bytes) (h : a.length = 32) : (a ++ b).take 32 = a := List.take_left' h
+theorem drop32_append (a b : Bytes) (h : a.length = 32) : (a ++ b).drop 32 = b := List.drop_left' h
+
+/-- what a successful `tweak_taproot_pubkey` computed -/
+theorem tweakPubkey_inv (x y t : Nat) (hx : x < 2 ^ 256) (hy : y < 2 ^ 256) (q : Bytes) (odd : Bool)
+    (hq : tweakPubkey (beBytes 32 x ++ beBytes 32 y) t = .ok (q, odd)) :
+    ∃ qx qy, add (some (x, if y % 2 ≠ 0 then p - y else y)) (mul G t) = some (qx, qy) ∧
+      odd = decide (qy % 2 ≠ 0) ∧ q.take 32 = beBytes 32 qx := by
+  unfold tweakPubkey at hq
+  rw [take32_append _ _ (beBytes_length 32 x), drop32_append _ _ (beBytes_length 32 x),
+    ofBE_beBytes32 x hx, ofBE_beBytes32 y hy] at hq
+  simp only [bind, Except.bind, pure, Except.pure, throw, throwThe, MonadExceptOf.throw] at hq
+  split at hq
+  · cases hq
+  rename_i qx qy hA
+  split at hq
+  · cases hq
+  rename_i a ha
+  split at hq
+  · cases hq
+  rename_i b hb
+  obtain ⟨_, rfl⟩ := toBytes32_eq_ok _ _ ha
+  injection hq with hq
+  injection hq with hq1 hq2
+  refine ⟨qx, qy, hA, hq2.symm, ?_⟩
+  rw [← hq1, take32_append _ _ (beBytes_length 32 qx)]
+
+theorem fullPubkeyGen_ok (d x y : Nat) (hd : 1 ≤ d ∧ d < n) (hP : mul G d = some (x, y))
+    (hx : x < 2 ^ 256) (hy : y < 2 ^ 256) :
+    fullPubkeyGen (beBytes 32 d) = .ok (beBytes 32 x ++ beBytes 32 y) := by
+  have hn := n_lt
+  unfold fullPubkeyGen
+  rw [ofBE_beBytes32 d (by omega)]
+  simp only [bind, Except.bind, pure, Except.pure, throw, throwThe, MonadExceptOf.throw]
+  have c : ¬ (!decide (1 ≤ d ∧ d ≤ n - 1)) = true := by simp; omega
+  rw [if_neg c]
+  simp only [hP]
+  rw [bytesFromInt_ok x hx, bytesFromInt_ok y hy]
+
+theorem tweakPrivkey_ok (d x y t : Nat) (hd : 1 ≤ d ∧ d < n) (hP : mul G d = some (x, y))
+    (hx : x < 2 ^ 256) (hy : y < 2 ^ 256) :
+    tweakPrivkey (beBytes 32 d) t = .ok (beBytes 32 ((dOf d y + t) % n)) := by
+  have hn := n_lt
+  unfold tweakPrivkey
+  rw [fullPubkeyGen_ok d x y hd hP hx hy]
+  simp only [bind, Except.bind]
+  rw [drop32_append _ _ (beBytes_length 32 x), ofBE_beBytes32 y hy, ofBE_beBytes32 d (by omega)]
+  have e : (if y % 2 = 0 then d else n - d) = dOf d y := by
+    unfold dOf; by_cases h : y % 2 = 0 <;> simp [h]
+  rw [e]
+  exact toBytes32_ok _ (Nat.lt_trans (Nat.mod_lt _ n_pos) n_lt)
 
 /-- whatever the y-parity of the internal key `d·G` or of the tweaked key: the secret that the signer
 derives (`tweak_taproot_privkey`) is the discrete log of the point whose x coordinate the address commits
@@ -21,7 +76,87 @@ theorem keypath_key_matches (laws : CurveLaws) (d : Nat) (hd : 1 ≤ d ∧ d < n
     (q : Bytes) (odd : Bool) (hq : tweakPubkey (beBytes 32 x ++ beBytes 32 y) t = .ok (q, odd)) :
     ∃ d', tweakPrivkey (beBytes 32 d) t = .ok (beBytes 32 d') ∧ d' < n ∧
       ∃ qx qy, mul G d' = some (qx, qy) ∧ q.take 32 = beBytes 32 qx ∧ odd = (qy % 2 ≠ 0) := by
-  sorry
+  have hp := p_lt
+  obtain ⟨hxp, hy0, hyp⟩ := laws.coords d x y hP
+  have hx : x < 2 ^ 256 := by omega
+  have hy : y < 2 ^ 256 := by omega
+  obtain ⟨qx, qy, hA, hodd, hqx⟩ := tweakPubkey_inv x y t hx hy q odd hq
+  obtain ⟨_, hdn, hdG, _, _⟩ := evenize laws d (by omega) hd.2 x y hP
+  refine ⟨(dOf d y + t) % n, tweakPrivkey_ok d x y t hd hP hx hy, Nat.mod_lt _ n_pos, qx, qy, ?_, hqx, by rw [hodd]; simp⟩
+  have e : (if y % 2 ≠ 0 then p - y else y) = (if y % 2 = 0 then y else p - y) := by
+    by_cases h : y % 2 = 0 <;> simp [h]
+  rw [e, ← hdG, laws.mulG_mod t ht, laws.add_mulG _ _ hdn (Nat.mod_lt _ n_pos), Nat.add_mod_mod] at hA
+  exact hA
+
+theorem calculateTweak_lt (sha256 : Bytes → Bytes) (hlen : ∀ b, (sha256 b).length = 32) (T : Tables)
+    (pub : Bytes) (s : Scripts) (tw : Nat) (h : calculateTweak sha256 T pub s = .ok tw) : tw < 2 ^ 256 := by
+  have key : ∀ tag d, ofBE (taggedHash sha256 tag d) < 2 ^ 256 := fun tag d =>
+    ofBE_lt32 _ (by unfold taggedHash; exact hlen _)
+  cases s with
+  | none =>
+    simp only [calculateTweak, pure, Except.pure] at h
+    injection h with h; rw [← h]; exact key _ _
+  | root b =>
+    simp only [calculateTweak, pure, Except.pure] at h
+    injection h with h; rw [← h]; exact key _ _
+  | tree t =>
+    simp only [calculateTweak, bind, Except.bind, pure, Except.pure] at h
+    split at h
+    · cases h
+    injection h with h; rw [← h]; exact key _ _
+
+/-- what a successful `_sign_taproot_input` went through -/
+theorem signTaproot_inv (sha256 : Bytes → Bytes) (T : Tables) (priv pub digest : Bytes) (ht : Nat)
+    (s : Scripts) (tw : Bool) (sig : Bytes)
+    (hs : signTaproot sha256 T priv pub digest ht s tw = .ok sig) :
+    ∃ key sig0, (if tw then (calculateTweak sha256 T pub s >>= fun t => tweakPrivkey priv t) else pure priv) = .ok key ∧
+      schnorrSign sha256 digest key (sha256 (digest ++ key)) = .ok sig0 ∧ sig0.length = 64 ∧
+      ((ht = 0 ∧ sig = sig0) ∨ (ht ≠ 0 ∧ ht < 256 ∧ sig = sig0 ++ [UInt8.ofNat ht])) := by
+  have e : signTaproot sha256 T priv pub digest ht s tw =
+      ((if tw then (calculateTweak sha256 T pub s >>= fun t => tweakPrivkey priv t) else pure priv) >>= fun key =>
+        schnorrSign sha256 digest key (sha256 (digest ++ key)) >>= fun sig0 =>
+          if ht ≠ 0 then (Py.toBytes ht 1 .big >>= fun b => pure (sig0 ++ b)) else pure sig0) := by
+    cases tw <;> rfl
+  rw [e] at hs
+  cases hkey : (if tw then (calculateTweak sha256 T pub s >>= fun t => tweakPrivkey priv t) else pure priv) with
+  | error err => rw [hkey] at hs; cases hs
+  | ok key =>
+  rw [hkey] at hs
+  simp only [bind, Except.bind, pure, Except.pure] at hs
+  split at hs
+  · cases hs
+  rename_i sig0 hsig0
+  refine ⟨key, sig0, rfl, hsig0, ?_, ?_⟩
+  · obtain ⟨_, _, _, _, _, _, _, _, _, _, _, _, _, h, _⟩ := sign_ok_inv _ _ _ _ _ hsig0
+    rw [h]; exact sigOf_length ..
+  · by_cases h0 : ht = 0
+    · left
+      rw [if_neg (by simpa using h0)] at hs
+      injection hs with hs
+      exact ⟨h0, hs.symm⟩
+    · right
+      rw [if_pos h0] at hs
+      split at hs
+      · cases hs
+      rename_i b hb
+      injection hs with hs
+      unfold Py.toBytes at hb
+      split at hb
+      · cases hb
+      split at hb
+      · cases hb
+      rename_i hlt
+      have hlt' : ht < 256 := by
+        have e : (256 : Nat) ^ (1 : Int).toNat = 256 := rfl
+        rw [e] at hlt
+        simp at hlt; exact hlt
+      injection hb with hb
+      refine ⟨h0, hlt', ?_⟩
+      rw [← hs, ← hb]
+      have e : (1 : Int).toNat = 1 := rfl
+      simp [e, beBytes, leBytes, Nat.mod_eq_of_lt hlt']
+
+theorem take64 (a b : Bytes) (h : a.length = 64) : (a ++ b).take 64 = a := List.take_left' h
 
 /-- a key-path signature (tweak = true) for any script tree / raw root / nothing is a valid BIP340
 signature under the digest for exactly the output key the address commits to -/
@@ -31,20 +166,60 @@ theorem keypath_sig_verifies (laws : CurveLaws) (sha256 : Bytes → Bytes) (hlen
     (hq : toTaproot sha256 T (beBytes 32 x ++ beBytes 32 y) s = .ok (q, odd))
     (hs : signTaproot sha256 T (beBytes 32 d) (beBytes 32 x ++ beBytes 32 y) digest ht s true = .ok sig) :
     bip340Verify sha256 digest q (sig.take 64) = true := by
-  sorry
+  have hn := n_lt
+  obtain ⟨key, sig0, hkey, hsign, hl, hsig⟩ := signTaproot_inv sha256 T _ _ digest ht s true sig hs
+  have hsig0 : sig.take 64 = sig0 := by
+    rcases hsig with ⟨_, h⟩ | ⟨_, _, h⟩
+    · rw [h]; exact List.take_of_length_le (by omega)
+    · rw [h]; exact take64 _ _ hl
+  rw [hsig0]
+  unfold toTaproot at hq
+  simp only [if_true, bind, Except.bind, pure, Except.pure] at hkey hq
+  split at hq
+  · cases hq
+  rename_i tw htw
+  rw [htw] at hkey
+  simp only [] at hkey
+  split at hq
+  · cases hq
+  rename_i qo hqo
+  have hq1 : qo.1.take 32 = q := (Prod.mk.inj (Except.ok.inj hq)).1
+  have htw2 := calculateTweak_lt sha256 hlen T _ s tw htw
+  obtain ⟨d', hd', hd'n, qx, qy, hG, hqx, _⟩ := keypath_key_matches laws d hd tw htw2 x y hP qo.1 qo.2 hqo
+  rw [hd'] at hkey
+  replace hkey := Except.ok.inj hkey
+  obtain ⟨x', y', hG', hv⟩ := sign_ok_verifies sha256 hlen digest key _ sig0 hsign
+  rw [← hkey, ofBE_beBytes32 d' (by omega), hG] at hG'
+  have hx' : qx = x' := (Prod.mk.inj (Option.some.inj hG')).1
+  rw [← hq1, hqx, hx']
+  exact hv
 
 /-- a script-path signature (no tweak) verifies under the signer's x-only key -/
 theorem scriptpath_sig_verifies (sha256 : Bytes → Bytes) (hlen : ∀ b, (sha256 b).length = 32)
     (T : Tables) (priv pub : Bytes) (s : Scripts) (digest : Bytes) (ht : Nat) (sig : Bytes)
     (hs : signTaproot sha256 T priv pub digest ht s false = .ok sig) :
     ∃ x y, mul G (ofBE priv) = some (x, y) ∧ bip340Verify sha256 digest (beBytes 32 x) (sig.take 64) = true := by
-  sorry
+  obtain ⟨key, sig0, hkey, hsign, hl, hsig⟩ := signTaproot_inv sha256 T _ _ digest ht s false sig hs
+  have hsig0 : sig.take 64 = sig0 := by
+    rcases hsig with ⟨_, h⟩ | ⟨_, _, h⟩
+    · rw [h]; exact List.take_of_length_le (by omega)
+    · rw [h]; exact take64 _ _ hl
+  rw [hsig0]
+  simp only [Bool.false_eq_true, if_false, pure, Except.pure] at hkey
+  injection hkey with hkey
+  subst hkey
+  exact sign_ok_verifies sha256 hlen digest priv _ sig0 hsign
 
 /-- 64 bytes for the default hash type, 65 bytes ending in the hash type otherwise -/
 theorem sig_length (sha256 : Bytes → Bytes) (hlen : ∀ b, (sha256 b).length = 32)
     (T : Tables) (priv pub : Bytes) (s : Scripts) (digest : Bytes) (ht : Nat) (tw : Bool) (sig : Bytes)
     (hs : signTaproot sha256 T priv pub digest ht s tw = .ok sig) :
     (ht = 0 → sig.length = 64) ∧ (ht ≠ 0 → sig.length = 65 ∧ ht < 256 ∧ sig.getLast? = some (UInt8.ofNat ht)) := by
-  sorry
+  obtain ⟨key, sig0, _, _, hl, hsig⟩ := signTaproot_inv sha256 T _ _ digest ht s tw sig hs
+  rcases hsig with ⟨h0, h⟩ | ⟨h0, hlt, h⟩
+  · exact ⟨fun _ => by rw [h]; exact hl, fun h1 => absurd h0 h1⟩
+  · refine ⟨fun h1 => absurd h1 h0, fun _ => ⟨?_, hlt, ?_⟩⟩
+    · rw [h]; simp [hl]
+    · rw [h]; simp
 
 end C07
